@@ -6,6 +6,7 @@ any number of readers sharing one dict, each a program of `get i` / `clear`, int
 operations by an arbitrary schedule.
 -/
 import KDVerif.Lemmas.Cache
+import KDVerif.Lemmas.C19Extra
 
 namespace KDVerif.C19
 open KDVerif.Cache
@@ -171,5 +172,394 @@ theorem transform_every_access (f : Nat → Val) (t : Val → Val) (ops : List O
   rw [seq_run_eq f t ops _ emptyDict [] [] [] (by intro i v h; simp [emptyDict] at h) (Nat.le_refl _)]
   simp only [List.nil_append]
   exact seqSem_tapps f ops emptyDict
+
+/-! ## Arbitrary schedules and the event trace
+
+`trace f t sched (init progs)` is the list of `(reader, event)` pairs of a run (it is what the schedule-replay driver
+compares with the real code: `sched.zip (events …)`).  The theorems below speak about positions of this trace, written as
+splits `pre ++ (r, e) :: post`. -/
+
+theorem trace_eq_zip_events (f : Nat → Val) (t : Val → Val) (sched : List Nat) (s : State) :
+    trace f t sched s = sched.zip (events f t sched s) := c19x_trace_eq_zip f t sched s
+
+/-- **Clause "applies its post-cache transform on every access", every schedule, any number of readers** (gap 2, exact
+    form): the log of transform applications is exactly the list of completion events (`read i true` = served from the cache,
+    `store i` = served after a load) of the run, in the order they happen. -/
+theorem transform_log_is_completion_events (f : Nat → Val) (t : Val → Val) (progs : List (List Op)) (sched : List Nat) :
+    (run f t sched (init progs)).sh.tapps = (events f t sched (init progs)).filterMap doneIdx := by
+  simpa [init] using (c19x_run_logs f t sched (init progs)).2
+
+/-- **Clause "applies its post-cache transform on every access", every schedule, any number of readers** (gap 2, counting
+    form): for every set `p` of indices, the number of transform applications to samples of indices in `p` equals the number of
+    answers `cached[i]`, `i ∈ p`, that have been handed out so far, summed over all readers (`completed`). -/
+theorem transform_count_eq_completed_accesses (f : Nat → Val) (t : Val → Val) (progs : List (List Op)) (sched : List Nat)
+    (p : Nat → Bool) :
+    (run f t sched (init progs)).sh.tapps.countP p =
+      ((run f t sched (init progs)).readers.map (fun rd => rd.out.countP (isValOf p))).sum := by
+  have := c19x_run_completed f t p sched (init progs)
+  rw [c19x_init_completed] at this
+  simpa [init, completed] using this
+
+/-- … in total: as many transform applications as completed accesses, under every schedule -/
+theorem transform_applications_eq_completed_accesses (f : Nat → Val) (t : Val → Val) (progs : List (List Op))
+    (sched : List Nat) :
+    (run f t sched (init progs)).sh.tapps.length =
+      ((run f t sched (init progs)).readers.map (fun rd => rd.out.countP (isValOf fun _ => true))).sum := by
+  rw [← transform_count_eq_completed_accesses]
+  simp
+
+/-- non-vacuity: two readers racing on index 0, a third clearing: 3 completed gets, 3 transform applications
+    (and 2 loads: the race made one redundant) -/
+example :
+    let s := run (fun i => 10 * i + 3) (· + 1000) [0, 1, 0, 1, 0, 1, 0, 0, 2] (init [[.get 0, .get 0], [.get 0], [.clear]])
+    s.sh.tapps = [0, 0, 0] ∧ s.readers.map (fun rd => rd.out.countP (isValOf fun _ => true)) = [2, 1, 0] ∧
+      s.sh.loads = [0, 0] := by decide
+
+/-- the load log is exactly the list of load events of the run (every schedule) -/
+theorem load_log_is_load_events (f : Nat → Val) (t : Val → Val) (progs : List (List Op)) (sched : List Nat) :
+    (run f t sched (init progs)).sh.loads = (events f t sched (init progs)).filterMap loadIdx := by
+  simpa [init] using (c19x_run_logs f t sched (init progs)).1
+
+/-- **Clause "in any sequential history each underlying sample is loaded at most once between clears", for any number of
+    readers** (gap 1).  `Serial`: whenever a reader takes a step every other reader is between two accesses (turn-taking: an
+    access runs to completion before another reader's access starts; which reader goes next, and where the clears are, is
+    arbitrary).  For every stretch `seg` of the run that contains no clear, the loads made during `seg` are pairwise distinct;
+    the load log is the concatenation of the loads made before, during and after `seg`. -/
+theorem serial_load_once (f : Nat → Val) (t : Val → Val) (progs : List (List Op)) (sched : List Nat)
+    (hs : Serial f t sched (init progs)) (pre seg post : List Ev)
+    (hsplit : events f t sched (init progs) = pre ++ seg ++ post) (hnc : Ev.clear ∉ seg) :
+    (seg.filterMap loadIdx).Nodup ∧
+      (run f t sched (init progs)).sh.loads = pre.filterMap loadIdx ++ seg.filterMap loadIdx ++ post.filterMap loadIdx := by
+  constructor
+  · have htake := c19x_events_take f t sched (init progs) (pre ++ seg) post hsplit
+    have hser : Serial f t (sched.take (pre ++ seg).length) (init progs) := by
+      apply c19x_serial_prefix f t _ (sched.drop (pre ++ seg).length)
+      rw [List.take_append_drop]; exact hs
+    have := c19x_serial_loads_nodup f t progs _ hser
+    rw [c19x_trace_snd, htake] at this
+    simp only [loadsSinceClear, List.foldl_append] at this
+    rw [c19x_foldl_sinceClear_noclear seg _ hnc] at this
+    exact (List.nodup_append.mp this).2.1
+  · rw [load_log_is_load_events, hsplit]
+    simp
+
+/-- non-vacuity: three readers taking turns (reader 1 twice, a clear in between): the schedule is serial; between the clears
+    no index is loaded twice although every reader accesses index 0 -/
+example :
+    Serial (fun i => 10 * i + 3) (· + 1000) [0, 0, 0, 1, 1, 2, 2, 1, 0, 0, 0, 1, 1]
+      (init [[.get 0, .get 0], [.get 0, .clear, .get 0], [.get 0]]) ∧
+    (run (fun i => 10 * i + 3) (· + 1000) [0, 0, 0, 1, 1, 2, 2, 1, 0, 0, 0, 1, 1]
+      (init [[.get 0, .get 0], [.get 0, .clear, .get 0], [.get 0]])).sh.loads = [0, 0] := by decide
+
+/-- the hypotheses of `serial_load_once` are jointly satisfiable: the stretch between the start and the clear of that run -/
+example :
+    ([Ev.contains 0 false, .load 0, .store 0, .contains 0 true, .read 0 true, .contains 0 true, .read 0 true].filterMap
+      loadIdx).Nodup :=
+  (serial_load_once (fun i => 10 * i + 3) (· + 1000) [[.get 0, .get 0], [.get 0, .clear, .get 0], [.get 0]]
+    [0, 0, 0, 1, 1, 2, 2, 1, 0, 0, 0, 1, 1] (by decide) []
+    [.contains 0 false, .load 0, .store 0, .contains 0 true, .read 0 true, .contains 0 true, .read 0 true]
+    [.clear, .contains 0 false, .load 0, .store 0, .contains 0 true, .read 0 true] (by decide) (by decide)).1
+
+/-- … and the hypothesis `Serial` is needed: with overlapping accesses two readers load the same index between clears -/
+example :
+    ¬ Serial (fun i => 10 * i + 3) (· + 1000) [0, 1, 0, 1, 0, 1] (init [[.get 0], [.get 0]]) ∧
+    (run (fun i => 10 * i + 3) (· + 1000) [0, 1, 0, 1, 0, 1] (init [[.get 0], [.get 0]])).sh.loads = [0, 0] := by decide
+
+/-- **Turn-taking runs of any number of readers are sequential histories** (gap 1, closed form).  `history`: the operations of
+    all readers in the order in which they start (`contains i _ ↦ get i`, `clear ↦ clear`); `pending`: the load a reader has
+    decided on (miss observed) but not made yet (at most one in a serial run).  The load log, completed by that pending load,
+    is exactly what the sequential specification `loadsSpec` prescribes for the history: an index is loaded when it is accessed
+    — by whichever reader — for the first time since the last clear, and at no other time. -/
+theorem serial_loads_eq_loadsSpec (f : Nat → Val) (t : Val → Val) (progs : List (List Op)) (sched : List Nat)
+    (hs : Serial f t sched (init progs)) :
+    (run f t sched (init progs)).sh.loads ++ pending (run f t sched (init progs)) =
+      loadsSpec (history (events f t sched (init progs))) [] := by
+  rw [← c19x_trace_snd]
+  exact c19x_serial_loads_spec f t progs sched hs
+
+/-- … when no access is in flight at the end (every reader between two accesses): the load log is `loadsSpec` of the history,
+    so `loads_once_between_clears` / `loaded_again_after_clear` apply to multi-reader serial runs verbatim -/
+theorem serial_quiescent_loads_eq_loadsSpec (f : Nat → Val) (t : Val → Val) (progs : List (List Op)) (sched : List Nat)
+    (hs : Serial f t sched (init progs)) (hq : ∀ rd ∈ (run f t sched (init progs)).readers, rd.pc = .idle) :
+    (run f t sched (init progs)).sh.loads = loadsSpec (history (events f t sched (init progs))) [] := by
+  rw [← serial_loads_eq_loadsSpec f t progs sched hs]
+  have : pending (run f t sched (init progs)) = [] := by
+    unfold pending
+    rw [List.flatMap_eq_nil_iff]
+    intro rd hrd
+    rw [hq rd hrd]; rfl
+  rw [this, List.append_nil]
+
+/-- non-vacuity: the three readers taking turns from above: history and loads -/
+example :
+    let sched := [0, 0, 0, 1, 1, 2, 2, 1, 0, 0, 0, 1, 1]
+    let progs : List (List Op) := [[.get 0, .get 0], [.get 0, .clear, .get 0], [.get 0]]
+    history (events (fun i => 10 * i + 3) (· + 1000) sched (init progs)) = [.get 0, .get 0, .get 0, .clear, .get 0, .get 0] ∧
+    (∀ rd ∈ (run (fun i => 10 * i + 3) (· + 1000) sched (init progs)).readers, rd.pc = .idle) ∧
+    loadsSpec [.get 0, .get 0, .get 0, .clear, .get 0, .get 0] [] = [0, 0] := by decide
+
+/-- **What a reader observes** (every schedule): a membership test (`contains`) or a read of index `i` answers "present"
+    exactly if `i` was stored since the last clear (`storedSinceClear`: fold over the events so far, `store i ↦ true`,
+    `clear ↦ false`). -/
+theorem observation_iff_stored_since_clear (f : Nat → Val) (t : Val → Val) (progs : List (List Op)) (sched : List Nat)
+    (pre post : List (Nat × Ev)) (r : Nat) (e : Ev) (i : Nat) (b : Bool)
+    (h : trace f t sched (init progs) = pre ++ (r, e) :: post) (he : e = .contains i b ∨ e = .read i b) :
+    b = storedSinceClear i (pre.map (·.2)) :=
+  c19x_observation f t progs sched pre post r e i b h he
+
+/-- **Clause "concurrent readers may load redundantly" — when a load happens** (gap 3, every schedule): a load of `i` by
+    reader `r` is preceded by `r`'s own observation of a miss for `i` (its last step before the load), and at that observation
+    `i` had not been stored since the last clear. -/
+theorem load_follows_own_miss (f : Nat → Val) (t : Val → Val) (progs : List (List Op)) (sched : List Nat)
+    (pre post : List (Nat × Ev)) (r : Nat) (i : Nat)
+    (h : trace f t sched (init progs) = pre ++ (r, .load i) :: post) :
+    ∃ p1 e p2, pre = p1 ++ (r, e) :: p2 ∧ (e = .contains i false ∨ e = .read i false) ∧ r ∉ p2.map (·.1) ∧
+      storedSinceClear i (p1.map (·.2)) = false :=
+  c19x_load_own_miss f t progs sched pre post r i h
+
+/-- **Redundant loads are races** (gap 3, every schedule): if index `i` is loaded twice with no clear in between
+    (`… (r₁, load i) … (r₂, load i) …`), then the two loads are made by different readers, and `r₂` observed its miss (last step
+    of `r₂` before its load) at a moment when no store of `i` had happened since the last clear — in particular, if that
+    moment lies after `r₁`'s load, no reader (so not `r₁` either) has stored `i` between `r₁`'s load and `r₂`'s observation. -/
+theorem redundant_load_is_a_race (f : Nat → Val) (t : Val → Val) (progs : List (List Op)) (sched : List Nat)
+    (a b c : List (Nat × Ev)) (r₁ r₂ i : Nat)
+    (h : trace f t sched (init progs) = a ++ (r₁, .load i) :: b ++ (r₂, .load i) :: c)
+    (hnc : Ev.clear ∉ b.map (·.2)) :
+    r₁ ≠ r₂ ∧
+    ∃ p1 e p2, a ++ (r₁, .load i) :: b = p1 ++ (r₂, e) :: p2 ∧ (e = .contains i false ∨ e = .read i false) ∧
+      r₂ ∉ p2.map (·.1) ∧ storedSinceClear i (p1.map (·.2)) = false ∧
+      ∀ b1, p1 = a ++ (r₁, .load i) :: b1 → Ev.store i ∉ b1.map (·.2) := by
+  have h' : trace f t sched (init progs) = (a ++ (r₁, .load i) :: b) ++ (r₂, .load i) :: c := by simp [h]
+  obtain ⟨p1, e, p2, hp, he, hn, hst⟩ := c19x_load_own_miss f t progs sched _ c r₂ i h'
+  have hlast : ∀ b1, p1 = a ++ (r₁, .load i) :: b1 → Ev.store i ∉ b1.map (·.2) := by
+    intro b1 hb1
+    subst hb1
+    have hb : b = b1 ++ (r₂, e) :: p2 := by
+      have := hp
+      simp only [List.append_assoc, List.cons_append] at this
+      have := List.append_cancel_left this
+      simpa using this
+    have hnc1 : Ev.clear ∉ b1.map (·.2) := by
+      intro hc; apply hnc; rw [hb]; simp only [List.map_append, List.mem_append]; exact Or.inl hc
+    have hst' : storedSinceClear i ((a ++ [(r₁, Ev.load i)]).map (·.2) ++ b1.map (·.2)) = false := by
+      rw [← hst]; simp
+    exact c19x_not_stored_no_store i _ _ hnc1 hst'
+  refine ⟨?_, p1, e, p2, hp, he, hn, hst, hlast⟩
+  intro er
+  subst er
+  rcases List.append_eq_append_iff.mp hp with ⟨a', h1, h2⟩ | ⟨c', h1, h2⟩
+  · cases a' with
+    | nil =>
+      simp only [List.nil_append, List.cons.injEq, Prod.mk.injEq, true_and] at h2
+      rcases he with he | he <;> rw [he] at h2 <;> cases h2.1
+    | cons x a'' =>
+      simp only [List.cons_append, List.cons.injEq] at h2
+      obtain ⟨hx, hb⟩ := h2
+      subst hx
+      have hp1 : p1 = a ++ (r₁, Ev.load i) :: a'' := by rw [h1]
+      have hno := hlast a'' hp1
+      by_cases hocc : r₁ ∈ a''.map (·.1)
+      · obtain ⟨x1, e', x2, hx, hnx⟩ := c19x_first_occurrence r₁ a'' hocc
+        have ht : trace f t sched (init progs) =
+            a ++ (r₁, .load i) :: x1 ++ (r₁, e') :: (x2 ++ (r₁, e) :: p2 ++ (r₁, .load i) :: c) := by
+          rw [h', hp, hp1, hx]; simp
+        have := c19x_after_load_store f t progs sched a x1 _ r₁ i e' ht hnx
+        subst this
+        apply hno
+        rw [hx]
+        simp
+      · have ht : trace f t sched (init progs) =
+            a ++ (r₁, .load i) :: a'' ++ (r₁, e) :: (p2 ++ (r₁, .load i) :: c) := by
+          rw [h', hp, hp1]; simp
+        have := c19x_after_load_store f t progs sched a a'' _ r₁ i e ht hocc
+        rcases he with he | he <;> rw [he] at this <;> cases this
+  · cases c' with
+    | nil =>
+      simp only [List.nil_append, List.cons.injEq, Prod.mk.injEq, true_and] at h2
+      rcases he with he | he <;> rw [he] at h2 <;> cases h2.1
+    | cons x c'' =>
+      simp only [List.cons_append, List.cons.injEq] at h2
+      apply hn
+      rw [h2.2]
+      simp
+
+/-- non-vacuity: the race — both readers test membership of index 0 before either has stored it, both load -/
+example : trace (fun i => 10 * i + 3) (· + 1000) [0, 1, 0, 1, 0, 1] (init [[.get 0], [.get 0]]) =
+    [(0, .contains 0 false), (1, .contains 0 false), (0, .load 0), (1, .load 0), (0, .store 0), (1, .store 0)] := by decide
+
+/-- the hypotheses of `redundant_load_is_a_race` are satisfiable (that race): the two loads are by different readers -/
+example : (0 : Nat) ≠ 1 :=
+  (redundant_load_is_a_race (fun i => 10 * i + 3) (· + 1000) [[.get 0], [.get 0]] [0, 1, 0, 1, 0, 1]
+    [(0, .contains 0 false), (1, .contains 0 false)] [] [(0, .store 0), (1, .store 0)] 0 1 0 (by decide) (by decide)).1
+
+/-- **"… but observe equal values"** (gap 3): whatever any two readers have observed for the same index, at any two points of
+    any schedule (before or after any clears, served from the cache or from a redundant load), is the same value, namely
+    `transform (base i)`. -/
+theorem observed_values_agree (f : Nat → Val) (t : Val → Val) (progs : List (List Op)) (sched sched' : List Nat)
+    (r r' : Nat) (rd rd' : Reader) (i : Nat) (v v' : Val)
+    (h : (run f t sched (init progs)).readers[r]? = some rd)
+    (h' : (run f t sched' (init progs)).readers[r']? = some rd')
+    (hv : Res.val i v ∈ rd.out) (hv' : Res.val i v' ∈ rd'.out) : v = t (f i) ∧ v' = t (f i) := by
+  constructor
+  · rcases every_get_returns_dataset_value f t progs sched r rd h _ hv with h1 | ⟨j, h1⟩
+    · cases h1
+    · cases h1; rfl
+  · rcases every_get_returns_dataset_value f t progs sched' r' rd' h' _ hv' with h1 | ⟨j, h1⟩
+    · cases h1
+    · cases h1; rfl
+
+/-- non-vacuity: the racing readers (one served by its own redundant load) and a reader after a clear all saw `1003` -/
+example :
+    (run (fun i => 10 * i + 3) (· + 1000) [0, 1, 0, 1, 0, 1, 2, 0, 0, 0] (init [[.get 0, .get 0], [.get 0], [.clear]])).readers.map
+      (·.out) = [[.val 0 1003, .val 0 1003], [.val 0 1003], [.cleared]] := by decide
+
+/-- **Clause "after a clear samples are loaded again", every schedule, any reader** (gap 4).  After a clear, the first access
+    of index `i` that completes (by whichever reader `r`) is not served from the cache: it completes with `store i`, i.e. it is
+    an access in which `r` itself has loaded `i` from the wrapped dataset (`r`'s previous step is `load i`). -/
+theorem first_access_after_clear_loads (f : Nat → Val) (t : Val → Val) (progs : List (List Op)) (sched : List Nat)
+    (pre mid post : List (Nat × Ev)) (rc r i : Nat) (e : Ev)
+    (h : trace f t sched (init progs) = pre ++ (rc, .clear) :: mid ++ (r, e) :: post)
+    (hdone : doneIdx e = some i) (hfirst : ∀ x ∈ mid, doneIdx x.2 ≠ some i) :
+    e = .store i ∧ ∃ p1 p2, pre ++ (rc, .clear) :: mid = p1 ++ (r, .load i) :: p2 ∧ r ∉ p2.map (·.1) := by
+  have h' : trace f t sched (init progs) = (pre ++ (rc, .clear) :: mid) ++ (r, e) :: post := by simp [h]
+  have he : e = .store i := by
+    cases e with
+    | read j b =>
+      cases b with
+      | false => simp [doneIdx] at hdone
+      | true =>
+        simp only [doneIdx, Option.some.injEq] at hdone
+        subst hdone
+        have := c19x_observation f t progs sched _ post r _ j true h' (Or.inr rfl)
+        rw [List.map_append, List.map_cons, c19x_stored_append_clear] at this
+        rcases c19x_foldl_stored_true j _ false this.symm with hc | hc
+        · cases hc
+        · obtain ⟨x, hx, hx2⟩ := List.mem_map.mp hc
+          exact absurd (by rw [hx2]; rfl) (hfirst x hx)
+    | store j => simp only [doneIdx, Option.some.injEq] at hdone; rw [hdone]
+    | contains j b => simp [doneIdx] at hdone
+    | load j => simp [doneIdx] at hdone
+    | clear => simp [doneIdx] at hdone
+    | noop => simp [doneIdx] at hdone
+  subst he
+  exact ⟨rfl, c19x_store_own_load f t progs sched _ post r i h'⟩
+
+/-- … and in turn-taking schedules that load happens after the clear (gap 4): between a clear and the first completed
+    access of `i` after it, `i` is loaded from the wrapped dataset. -/
+theorem serial_first_access_after_clear_reloads (f : Nat → Val) (t : Val → Val) (progs : List (List Op)) (sched : List Nat)
+    (hs : Serial f t sched (init progs))
+    (pre mid post : List (Nat × Ev)) (rc r i : Nat) (e : Ev)
+    (h : trace f t sched (init progs) = pre ++ (rc, .clear) :: mid ++ (r, e) :: post)
+    (hdone : doneIdx e = some i) (hfirst : ∀ x ∈ mid, doneIdx x.2 ≠ some i) :
+    e = .store i ∧ (r, Ev.load i) ∈ mid := by
+  obtain ⟨he, p1, p2, hp, hn⟩ := first_access_after_clear_loads f t progs sched pre mid post rc r i e h hdone hfirst
+  refine ⟨he, ?_⟩
+  rcases List.append_eq_append_iff.mp hp with ⟨a', h1, h2⟩ | ⟨c', h1, h2⟩
+  · cases a' with
+    | nil => simp at h2
+    | cons x a'' =>
+      simp only [List.cons_append, List.cons.injEq] at h2
+      rw [h2.2]; simp
+  · cases c' with
+    | nil => simp at h2
+    | cons x c'' =>
+      -- the load would lie before the clear: `r` would be in the middle of an access while `rc` clears
+      exfalso
+      simp only [List.cons_append, List.cons.injEq] at h2
+      obtain ⟨hx, hp2⟩ := h2
+      subst hx
+      have hrc : r ≠ rc := by
+        intro e'; apply hn; rw [hp2, e']; simp
+      have hn' : r ∉ c''.map (·.1) := by
+        intro hc; apply hn; rw [hp2]; simp only [List.map_append, List.mem_append]; exact Or.inl hc
+      have h2 : trace f t sched (init progs) = pre ++ (rc, .clear) :: (mid ++ (r, e) :: post) := by simp [h]
+      obtain ⟨s1, s2, hsched, ht1, _, _⟩ := c19x_trace_split f t sched _ pre _ rc _ h2
+      have hl : lastEvOf r (trace f t s1 (init progs)) = some (.load i) := by
+        rw [ht1, h1]; exact c19x_lastEvOf_of_split r _ p1 c'' hn'
+      rw [hsched] at hs
+      have hidle := c19x_serial_at f t s1 s2 rc _ hs
+      cases hrd : (run f t s1 (init progs)).readers[r]? with
+      | none => cases c19x_absent_trace f t progs s1 r hrd _ hl
+      | some rd =>
+        have hA := c19x_pc_trace f t progs s1 r rd hrd
+        rw [hl] at hA
+        simp only [PcAfter] at hA
+        rcases c19x_others rc _ hidle r rd hrd with e' | e'
+        · exact hrc e'
+        · rw [hA] at e'; cases e'
+
+/-- non-vacuity (serial): reader 0 caches index 0, reader 1 clears, reader 2 accesses index 0: it is loaded again -/
+example : trace (fun i => 10 * i + 3) (· + 1000) [0, 0, 0, 1, 2, 2, 2] (init [[.get 0], [.clear], [.get 0]]) =
+    [(0, .contains 0 false), (0, .load 0), (0, .store 0), (1, .clear), (2, .contains 0 false), (2, .load 0), (2, .store 0)] ∧
+    Serial (fun i => 10 * i + 3) (· + 1000) [0, 0, 0, 1, 2, 2, 2] (init [[.get 0], [.clear], [.get 0]]) := by decide
+
+/-- the hypotheses of `serial_first_access_after_clear_reloads` are jointly satisfiable (that run, the clear by reader 1, the
+    completion `store 0` by reader 2) -/
+example : (2, Ev.load 0) ∈ [(2, Ev.contains 0 false), (2, Ev.load 0)] :=
+  (serial_first_access_after_clear_reloads (fun i => 10 * i + 3) (· + 1000) [[.get 0], [.clear], [.get 0]]
+    [0, 0, 0, 1, 2, 2, 2] (by decide) [(0, .contains 0 false), (0, .load 0), (0, .store 0)]
+    [(2, .contains 0 false), (2, .load 0)] [] 1 2 0 (.store 0) (by decide) rfl (by decide)).2
+
+/-- … and why the general theorem cannot place the load after the clear: with overlapping accesses the clear can fall
+    between a reader's load and its store; the first access completed after the clear then stores (and returns) the sample it
+    had loaded before the clear -/
+example : trace (fun i => 10 * i + 3) (· + 1000) [0, 0, 1, 0] (init [[.get 0], [.clear]]) =
+    [(0, .contains 0 false), (0, .load 0), (1, .clear), (0, .store 0)] := by decide
+
+/-! ## Mutable payloads (gap 5)
+
+`Val := Nat` cannot express aliasing.  `KDVerif.Model.C19Spec` is the same machine with samples as heap cells; the dict holds
+the address of the cached cell, the transform overwrites the cell that is handed out.  `copy = true` models the
+`deepcopy(sample)` at the end of `SharedDictDataset._cached_getitem`, `copy = false` the code before that repair. -/
+
+section MutablePayloads
+open KDVerif.Cache.Mut
+
+/-- **The cache holds raw samples, also with in-place transforms** (every schedule, any number of readers, clears anywhere):
+    with the copy, the cell cached under `i` holds `f i` — it is never the cell a transform has written to, because what is
+    handed out is a fresh cell. -/
+theorem mutable_cache_holds_raw_samples (f : Nat → Val) (t : Val → Val) (progs : List (List Op)) (sched : List Nat)
+    (i a : Nat) (h : (mrun true f t sched (minit progs)).sh.dict i = some a) :
+    (mrun true f t sched (minit progs)).sh.heap[a]? = some (f i) :=
+  (c19x_mrun_inv f t sched _ (c19x_minit_inv f t progs)).1 i a h
+
+/-- … in terms of `cachedContents`: nothing cached, or the raw sample -/
+theorem mutable_cached_contents (f : Nat → Val) (t : Val → Val) (progs : List (List Op)) (sched : List Nat) (i : Nat) :
+    cachedContents (mrun true f t sched (minit progs)) i = none ∨
+      cachedContents (mrun true f t sched (minit progs)) i = some (f i) := by
+  unfold cachedContents
+  cases h : (mrun true f t sched (minit progs)).sh.dict i with
+  | none => exact Or.inl rfl
+  | some a => exact Or.inr (mutable_cache_holds_raw_samples f t progs sched i a h)
+
+/-- **Transparency with in-place transforms**: with the copy every answer to `get i`, by every reader under every schedule,
+    is `t (f i)` (the transform is applied exactly once to the raw sample, however often `i` was handed out before). -/
+theorem mutable_every_get_returns_dataset_value (f : Nat → Val) (t : Val → Val) (progs : List (List Op)) (sched : List Nat)
+    (r : Nat) (rd : Reader) (h : (mrun true f t sched (minit progs)).readers[r]? = some rd) :
+    ∀ res ∈ rd.out, res = .cleared ∨ ∃ i, res = .val i (t (f i)) :=
+  (c19x_mrun_inv f t sched _ (c19x_minit_inv f t progs)).2.2 r rd h
+
+/-- non-vacuity: one reader, `get 0` twice: cell 0 is the cached raw sample, cells 1 and 2 are the two copies handed out -/
+example :
+    let s := mrun true (fun i => 10 * i + 3) (· + 1000) [0, 0, 0, 0, 0] (minit [[.get 0, .get 0]])
+    s.sh.dict 0 = some 0 ∧ s.sh.heap = [3, 1003, 1003] ∧ s.readers.map (·.out) = [[.val 0 1003, .val 0 1003]] := by decide
+
+/-- **The defect that was repaired**: WITHOUT the copy the property fails — after a single access the cached cell holds the
+    transformed sample … -/
+theorem without_copy_cache_is_corrupted :
+    ¬ ∀ (f : Nat → Val) (t : Val → Val) (progs : List (List Op)) (sched : List Nat) (i a : Nat),
+        (mrun false f t sched (minit progs)).sh.dict i = some a →
+        (mrun false f t sched (minit progs)).sh.heap[a]? = some (f i) := by
+  intro h
+  have := h (fun i => 10 * i + 3) (· + 1000) [[.get 0]] [0, 0, 0] 0 0 (by decide)
+  revert this
+  decide
+
+/-- … and the second access to the same index returns the sample transformed twice (`2003` instead of `1003`) -/
+example :
+    let s := mrun false (fun i => 10 * i + 3) (· + 1000) [0, 0, 0, 0, 0] (minit [[.get 0, .get 0]])
+    s.sh.dict 0 = some 0 ∧ s.sh.heap = [2003] ∧ s.readers.map (·.out) = [[.val 0 1003, .val 0 2003]] := by decide
+
+end MutablePayloads
 
 end KDVerif.C19
